@@ -1,7 +1,7 @@
 (* C05 - Handlers bind each parameter from its declared source and enforce requiredness.
    Conversion part: every representable value of the declared type survives text -> value. *)
 From Gleece Require Import Base.Bytes Model.Bind Proofs.BindProofs Model.Project Model.Spec Model.Router
-     Model.RouterParams Proofs.RouterParamsProofs Proofs.CrossProofs Model.Security Model.Handler Proofs.HandlerProofs.
+     Model.RouterParams Proofs.RouterParamsProofs Proofs.CrossProofs Model.Security Model.Handler Proofs.HandlerProofs Model.SliceBind Proofs.SliceBindProofs.
 From Coq Require Import String.
 Open Scope N_scope.
 
@@ -160,6 +160,52 @@ Example C05_handler_nonvacuous :
   snd (handle demo_cfg demo_ctrl demo_method [] (mkOp false None) (demo_rq "5" "2")) = Rejected (s "q").
 Proof. exact (conj demo_rejected_range demo_rejected_rule). Qed.
 
+(* ---- list-valued (slice) parameters: ONE element per occurrence of the wire name (the documented
+   serialisation: form + explode); nothing inside an occurrence - a comma, a blank, any URL-reserved
+   character - separates elements, and no occurrence is merged, dropped or reordered ---- *)
+Theorem C05_slice_one_element_per_occurrence : forall authn rq p ty raws a,
+  slice_param p -> prim_of (pa_type p) = Some ty ->
+  lookup (rq_fields rq) (pa_loc p) (wire_name p) = Some raws -> raws <> [] ->
+  bind_param authn rq p = BArg a ->
+  exists vs, a = AList vs /\ Forall2 (fun r v => convert ty r = Some v) raws vs.
+Proof. exact slice_bound_elementwise. Qed.
+
+(* one occurrence that is no representation of the element type ("1843,1952" for []int) refuses the request *)
+Theorem C05_slice_unconvertible_rejected : forall authn rq p ty raws r,
+  slice_param p -> prim_of (pa_type p) = Some ty ->
+  lookup (rq_fields rq) (pa_loc p) (wire_name p) = Some raws -> In r raws -> convert ty r = None ->
+  bind_param authn rq p = BReject.
+Proof. exact slice_unconvertible_rejected. Qed.
+
+Theorem C05_slice_all_convert_bound : forall authn rq p ty raws vs,
+  slice_param p -> prim_of (pa_type p) = Some ty -> only_required (reduced_validator p) ->
+  lookup (rq_fields rq) (pa_loc p) (wire_name p) = Some raws -> raws <> [] ->
+  Forall2 (fun r v => convert ty r = Some v) raws vs ->
+  bind_param authn rq p = BArg (AList vs).
+Proof. exact slice_all_convert_bound. Qed.
+
+(* the per-request oracle of the check for slices (Model/SliceBind.v, written from the property text)
+   accepts what the handler model does *)
+Theorem C05_slice_oracle_accepts_model : forall authn rq p ty raws,
+  slice_param p -> prim_of (pa_type p) = Some ty -> only_required (reduced_validator p) ->
+  lookup (rq_fields rq) (pa_loc p) (wire_name p) = Some raws -> raws <> [] ->
+  match bind_param authn rq p with
+  | BArg (AList vs) => forall st, prop_C05_slice_request ty raws true st (Some vs) false = true
+  | BReject => forall got, prop_C05_slice_request ty raws false 422 got false = true
+  | _ => False
+  end.
+Proof. exact slice_oracle_accepts_model. Qed.
+
+Example C05_slice_nonvacuous :
+  bind_param 0 (slice_demo_rq ["Lovelace, Ada"%string]) (slice_demo_param "string") = BArg (AList [VStr (s "Lovelace, Ada")]) /\
+  bind_param 0 (slice_demo_rq ["a"%string; "b,c"%string]) (slice_demo_param "string") = BArg (AList [VStr (s "a"); VStr (s "b,c")]) /\
+  bind_param 0 (slice_demo_rq ["1843,1952"%string]) (slice_demo_param "int") = BReject /\
+  bind_param 0 (slice_demo_rq ["1843"%string; "1952"%string]) (slice_demo_param "int") = BArg (AList [VInt 1843; VInt 1952]) /\
+  prop_C05_slice_request PString [s "Lovelace, Ada"] true 200 (Some [VStr (s "Lovelace"); VStr (s " Ada")]) false = false /\
+  prop_C05_slice_request PInt [s "1843,1952"] true 200 (Some [VInt 1843; VInt 1952]) false = false /\
+  prop_C05_slice_request PInt [s "1843,1952"] false 422 None false = true.
+Proof. exact slice_demo. Qed.
+
 Print Assumptions C05_decimal_roundtrip.
 Print Assumptions C05_uint_roundtrip.
 Print Assumptions C05_int_roundtrip.
@@ -183,3 +229,8 @@ Print Assumptions C05_documented_required_is_enforced.
 Print Assumptions C05_translated_conversion_is_model_conversion.
 Print Assumptions C05_depends_only_on_declared_sources.
 Print Assumptions C05_decoy_ignored.
+Print Assumptions C05_slice_one_element_per_occurrence.
+Print Assumptions C05_slice_unconvertible_rejected.
+Print Assumptions C05_slice_all_convert_bound.
+Print Assumptions C05_slice_oracle_accepts_model.
+Print Assumptions C05_slice_nonvacuous.
